@@ -37,10 +37,52 @@ def oracle(ctx, sc, recs, desc):
     port = sc.state.port
     req = set(F.request_methods())
     nontrivial = False
+    closed_req = False          # disconnect() has returned (or reboot()/bootload() transmitted) and no connect() since
     for k, r in enumerate(recs):
         name = r['call'][0]
         blocked = (latched is not None) or (not port)
         where = dict(desc, call_index=k)
+        # ---- closing: after disconnect() returns - however port.close() behaved - the object is not connected, and
+        # every request until the next connect() writes nothing and returns its failure value
+        f12 = any(c in 'ei' for c in F.close_fault_classes(recs, k))     # a plain OSError/IOError from close(): finding F12
+        if name == 'connect':
+            closed_req = False
+        elif closed_req and name in req:
+            nontrivial = True
+            if r['written'] or r['nreads']:
+                F.violate(ctx, f'{name} transmits after disconnect()', where, {'written': r['written'], 'reads': r['nreads']},
+                          'a disconnected object writes and reads nothing until connect()',
+                          key=F.F12_KEY if f12 else f'C04:{name}:writes-after-disconnect')
+            if r['exc'] or not F.is_failure(r['ret']):
+                F.violate(ctx, f'{name} does not return its failure value after disconnect()', where,
+                          r['exc'] or repr(r['ret']), 'False / None / (None, None)',
+                          key=F.F12_KEY if f12 else f'C04:{name}:no-failure-after-disconnect')
+        closes_here = [ev[1] for ev in r['events'] if ev[0] == 'c']
+        if name == 'disconnect':
+            if any(c != 'o' for c in closes_here):
+                nontrivial = True
+            if r['exc']:
+                F.violate(ctx, f'disconnect() raises {r["exc"]}' + (' and leaves the port set' if r['port'] else ''), where,
+                          {'exc': r['exc'], 'close_outcomes': closes_here, 'port_still_set': r['port']},
+                          'closing always remains possible: disconnect() returns and the object is not connected',
+                          key=F.F12_KEY if f12 else 'C04:disconnect:raises')
+            elif r['port']:
+                F.violate(ctx, 'disconnect() returns but the object is still connected', where,
+                          {'close_outcomes': closes_here, 'port_still_set': True},
+                          'after disconnect() the object is not connected', key=F.F12_KEY if f12 else 'C04:disconnect:port-kept')
+            closed_req = True       # the caller has disconnected: judged from here on, whatever the object did
+        elif name in ('reboot', 'bootload') and any(ev[0] == 'w' and ev[2] for ev in r['events']):
+            if any(c != 'o' for c in closes_here):
+                nontrivial = True
+            if r['port'] or r['exc']:
+                F.violate(ctx, f'{name}() transmitted its request but ' + (f'raises {r["exc"]}' if r['exc'] else 'leaves the port open'),
+                          where, {'ret': repr(r['ret']), 'exc': r['exc'], 'close_outcomes': closes_here, 'port_still_set': r['port']},
+                          f'{name}() closes the port after a successful write', key=F.F12_KEY if f12 else f'C04:{name}:port-kept')
+            closed_req = True
+        elif name == 'connect' and not r['exc'] and r['ret'] is False and r['port'] and r['err'] is None:
+            F.violate(ctx, 'connect() returns False but leaves a connected, error-free object', where,
+                      {'close_outcomes': closes_here}, 'a failed connect() leaves the object not connected or with its error',
+                      key=F.F12_KEY if f12 else 'C04:connect:failed-but-open')
         if blocked:
             nontrivial = True
             if name != 'connect' and r['written']:
@@ -131,10 +173,18 @@ def run(ctx):
     n += F.run_scenarios(ctx, F.pair_scenarios(), oracle, 'C04', c04_ignore)
     n += F.run_scenarios(ctx, F.connect_scenarios(), oracle, 'C04', c04_ignore)
     n += F.run_scenarios(ctx, F.two_object_scenarios(), oracle, 'C04', c04_ignore)
+    n += F.run_scenarios(ctx, F.close_fault_scenarios(), oracle, 'C04', c04_ignore)
+    n += F.run_scenarios(ctx, F.random_close_scenarios(rng, ctx.n(400)), oracle, 'C04', c04_ignore)
     n += F.run_scenarios(ctx, F.random_scenarios(rng, ctx.n(5000)), oracle, 'C04', c04_ignore)
     ctx.notes.append(f'{len(pub)} public methods by reflection: ' + ' '.join(pub))
     ctx.notes.append('modelled only as far as connect() needs them (never touch the port): find_first (result of the '
                      'comports() scan is an input), parse_version / min_version (release-only versions), record_error (fully)')
+    if ctx.__dict__.get('_oracle_only'):
+        ctx.notes.append(f"{ctx.__dict__['_oracle_only']} histories with a scripted fault of port.close() / "
+                         'port.reset_input_buffer() (every serial I/O exception class; in disconnect(), in the disconnect() '
+                         'inside reboot()/bootload()/a failed connect(), followed by requests) are judged by the oracle only: '
+                         "the Lean model's disconnect has no close-fault outcome, so there is no model / regenerated-code "
+                         'comparison for them')
     ign = ctx.__dict__.get('_ignored_diffs', [])
     if ign:
         ctx.out_of_domain.append({'note': 'differences in observables owned by C05 (return value / nickname of unblocked calls)',
